@@ -206,6 +206,87 @@ impl<T: HasShape> HasShape for std::num::Wrapping<T> {
         T::shape()
     }
 }
+/// A type that asks for `deserialize_byte_buf` (like serde_bytes::ByteBuf): owned bytes.
+#[derive(Debug, Clone, PartialEq)]
+pub struct OwnedBytes(pub Vec<u8>);
+impl Serialize for OwnedBytes {
+    fn serialize<S: serde::Serializer>(&self, s: S) -> Result<S::Ok, S::Error> {
+        s.serialize_bytes(&self.0)
+    }
+}
+impl<'de> Deserialize<'de> for OwnedBytes {
+    fn deserialize<D: serde::Deserializer<'de>>(d: D) -> Result<Self, D::Error> {
+        struct V;
+        impl<'de> serde::de::Visitor<'de> for V {
+            type Value = OwnedBytes;
+            fn expecting(&self, f: &mut std::fmt::Formatter) -> std::fmt::Result {
+                f.write_str("byte buffer")
+            }
+            fn visit_bytes<E: serde::de::Error>(self, v: &[u8]) -> Result<OwnedBytes, E> {
+                Ok(OwnedBytes(v.to_vec()))
+            }
+            fn visit_byte_buf<E: serde::de::Error>(self, v: Vec<u8>) -> Result<OwnedBytes, E> {
+                Ok(OwnedBytes(v))
+            }
+        }
+        d.deserialize_byte_buf(V)
+    }
+}
+impl HasShape for OwnedBytes {
+    fn shape() -> Shape {
+        Shape::Bytes
+    }
+}
+/// owned string through `deserialize_string`, owned char-less text
+impl HasShape for std::ffi::CString {
+    fn shape() -> Shape {
+        Shape::Bytes
+    }
+    const REFINED: bool = true;
+}
+
+// std::net types choose their representation from is_human_readable(): compact here
+impl HasShape for std::net::Ipv4Addr {
+    fn shape() -> Shape {
+        Shape::Tuple(vec![Shape::U8; 4])
+    }
+}
+impl HasShape for std::net::Ipv6Addr {
+    fn shape() -> Shape {
+        Shape::Tuple(vec![Shape::U8; 16])
+    }
+}
+impl HasShape for std::net::IpAddr {
+    fn shape() -> Shape {
+        Shape::Enum(
+            "IpAddr",
+            vec![
+                VariantShape { name: "V4", data: VData::Newtype(Box::new(<std::net::Ipv4Addr as HasShape>::shape())) },
+                VariantShape { name: "V6", data: VData::Newtype(Box::new(<std::net::Ipv6Addr as HasShape>::shape())) },
+            ],
+        )
+    }
+}
+impl HasShape for std::net::SocketAddrV4 {
+    fn shape() -> Shape {
+        Shape::Tuple(vec![<std::net::Ipv4Addr as HasShape>::shape(), Shape::U16])
+    }
+}
+impl HasShape for std::net::SocketAddr {
+    fn shape() -> Shape {
+        Shape::Enum(
+            "SocketAddr",
+            vec![
+                VariantShape { name: "V4", data: VData::Newtype(Box::new(<std::net::SocketAddrV4 as HasShape>::shape())) },
+                VariantShape {
+                    name: "V6",
+                    data: VData::Newtype(Box::new(Shape::Tuple(vec![<std::net::Ipv6Addr as HasShape>::shape(), Shape::U16]))),
+                },
+            ],
+        )
+    }
+}
+
 macro_rules! tuple_shape {
     ($( ($($n:ident),+) ),*) => { $(
         impl<$($n: HasShape),+> HasShape for ($($n,)+) {
@@ -390,6 +471,9 @@ macro_rules! for_each_corpus_type {
         $m!(heapless::Vec<u8, 4>); $m!(heapless::Vec<u32, 16>); $m!(heapless::String<8>);
         $m!(Result<u16, String>); $m!(std::num::NonZeroU16); $m!(std::num::NonZeroI64); $m!(std::time::Duration);
         $m!(std::ops::Range<u16>); $m!(Box<str>); $m!(std::path::PathBuf);
+        $m!(std::net::Ipv4Addr); $m!(std::net::Ipv6Addr); $m!(std::net::IpAddr); $m!(std::net::SocketAddrV4); $m!(std::net::SocketAddr);
+        $m!(Vec<std::net::IpAddr>); $m!(Option<std::net::Ipv4Addr>);
+        $m!($crate::corpus::OwnedBytes); $m!(std::ffi::CString); $m!(Vec<$crate::corpus::OwnedBytes>);
         $m!($crate::corpus::Prims); $m!($crate::corpus::PtrSized); $m!($crate::corpus::Strs); $m!($crate::corpus::UnitS);
         $m!($crate::corpus::NewT); $m!($crate::corpus::TupS); $m!($crate::corpus::Empty0); $m!($crate::corpus::EmptyNamed);
         $m!($crate::corpus::Basic); $m!($crate::corpus::Data); $m!($crate::corpus::Nested); $m!($crate::corpus::Colls);
